@@ -6,6 +6,7 @@
 import PCV.Model.Wire
 import PCV.Model.DrvUtil
 import PCV.Model.Hyrax
+import PCV.Model.HyraxTranscript
 namespace PCV
 namespace DrvHyrax
 open Driver Hyrax
@@ -47,6 +48,65 @@ def vProofs (πs : List (Proof (Fp p))) : List (String × Val) :=
    ("com_b", vFes (πs.map (·.comB))), ("zs", vFess (πs.map (·.z))),
    ("z_d", vFes (πs.map (·.zD))), ("z_b", vFes (πs.map (·.zB))),
    ("r_eval", vFes (πs.map (·.rEval)))]
+
+
+/-! ### `hyrax.transcript`: the event log of `open` / `check` / default `batch_open` / `batch_check`
+
+  `hyrax.transcript side=0 ks= h= plabels= clabels= nvs= rands= mat_n= mat_m= mats= coms=[[..],..] point= draws= sq=[[..],..]`
+        → `log`, `k`, proof components            (`HyraxPC::open`)
+  `side=1 ks= h= coms= point= values= <proof components> sq=`       → `b`, `log`      (`check`)
+  `side=2 ks= h= labels= nvs= rands= mat_n= mat_m= mats= clabels= coms= qs=[[label,plabel,point],..] draws= sq=`
+        → `log`, `groups` (proofs per point label)                   (default `batch_open`)
+  `side=3 ks= h= clabels= coms= qs= evals=[[label,point,value],..] pk=[..] <proof components> sq=`
+        → `b`, `log`                                                 (default `batch_check`)
+  `sq` are the recorded answers of the squeezes, in order; the oracle replays them by squeeze count.
+  Events: `[3,ks,h]` key, `[2,T]` row commitments, `[4,pt]` point, `[1,x]` one group element,
+  `[10,n]` `squeeze_field_elements(n)`, `[11,n]` `squeeze_bytes(n)`. -/
+
+def vItem : Item (Fp p) → Val
+  | .key ks h => .l [.n 3, vFes ks, vFe h]
+  | .rowComs T => .l [.n 2, vFes T]
+  | .point pt => .l [.n 4, vFes pt]
+  | .comEval x => .l [.n 1, vFe x]
+  | .comD x => .l [.n 1, vFe x]
+  | .comB x => .l [.n 1, vFe x]
+
+def vEv : SpongeEv (Item (Fp p)) → Val
+  | .absorb a => vItem a
+  | .squeezeField n => .l [.n 10, .n n]
+  | .squeezeBytes n => .l [.n 11, .n n]
+
+def vLog (s : Log (Fp p)) : Val := .l (s.map vEv)
+
+/-- `Vec<F>: Ord` — lexicographic on canonical representatives -/
+def ltVec : List (Fp p) → List (Fp p) → Bool
+  | [], [] => false
+  | [], _ :: _ => true
+  | _ :: _, [] => false
+  | a :: as, b :: bs => decide (a.v < b.v) || (decide (a.v = b.v) && ltVec as bs)
+
+def getQueries (v : Val) : R (List (TraitDefault.Query (List (Fp p)))) := do
+  let xs ← asList v
+  xs.mapM fun q => do
+    match ← asList q with
+    | [l, pl, pt] => pure (← asNats l, (← asNats pl, ← asFes pt))
+    | _ => .error "query-must-be-[label,point_label,point]"
+
+def getEvals (v : Val) : R (List ((List Nat × List (Fp p)) × Fp p)) := do
+  let xs ← asList v
+  xs.mapM fun e => do
+    match ← asList e with
+    | [l, pt, x] => pure ((← asNats l, ← asFes pt), ← asFe x)
+    | _ => .error "evaluation-must-be-[label,point,value]"
+
+/-- split a flat list into consecutive chunks of the given sizes -/
+def chunksBy {α : Type} : List Nat → List α → List (List α)
+  | [], _ => []
+  | k :: ks, l => l.take k :: chunksBy ks (l.drop k)
+
+def replay (r : Req) : R (RO (Fp p)) := do
+  let sq ← asFess (p := p) (← need r "sq")
+  pure (Sponge.replayRO 0 sq [])
 
 /-- `none` = not an op of this module -/
 def handle (p : Nat) (r : Req) : Option (Except String String) :=
@@ -98,6 +158,58 @@ def handle (p : Nat) (r : Req) : Option (Except String String) :=
     let πs ← getProofs (p := p) r
     let cs ← asFes (p := p) (← need r "cs")
     pure <| exceptReply (check ks hh coms point values πs cs) fun b => [("b", vBool b)]
+  | "hyrax.transcript" =>
+    let side ← asNat (← need r "side")
+    let ks ← asFes (p := p) (← need r "ks")
+    let hh ← asFe (p := p) (← need r "h")
+    let ro ← replay (p := p) r
+    match side with
+    | 0 =>
+      let pl ← asLabels (← need r "plabels")
+      let cl ← asLabels (← need r "clabels")
+      let nvs ← asNats (← need r "nvs")
+      let sts ← getStates (p := p) r
+      let coms ← asFess (p := p) (← need r "coms")
+      let point ← asFes (p := p) (← need r "point")
+      let draws ← asFes (p := p) (← need r "draws")
+      let items : List (OpenItem (Fp p) × List (Fp p)) :=
+        ((pl.zip (cl.zip (nvs.zip sts))).zip coms).map fun ((a, (b, (n, s))), T) => (⟨a, b, n, s⟩, T)
+      pure <| exceptReply (openT ro ks hh items point draws []) fun (πs, rest, s) =>
+        vProofs πs ++ [("k", .n πs.length), ("used", .n (draws.length - rest.length)), ("log", vLog s)]
+    | 1 =>
+      let coms ← asFess (p := p) (← need r "coms")
+      let point ← asFes (p := p) (← need r "point")
+      let values ← asFes (p := p) (← need r "values")
+      let πs ← getProofs (p := p) r
+      pure <| exceptReply (checkT ro ks hh coms point values πs []) fun (b, s) =>
+        [("b", vBool b), ("log", vLog s)]
+    | 2 =>
+      let labels ← asLabels (← need r "labels")
+      let nvs ← asNats (← need r "nvs")
+      let sts ← getStates (p := p) r
+      let cl ← asLabels (← need r "clabels")
+      let coms ← asFess (p := p) (← need r "coms")
+      let qs ← getQueries (p := p) (← need r "qs")
+      let draws ← asFes (p := p) (← need r "draws")
+      let polys : List (LPoly (Fp p)) := (labels.zip nvs).map fun (l, n) => ⟨l, ⟨n, []⟩⟩
+      let comms : List (LComm (Fp p)) := (cl.zip coms).map fun (l, T) => ⟨l, T⟩
+      pure <| exceptReply
+        (TraitDefault.batchOpen ltVec (fun (x : LPoly (Fp p)) => x.label) (openF ro ks hh) polys sts comms
+          qs (([] : Log (Fp p)), draws)) fun (πss, (s, rest)) =>
+        vProofs πss.flatten ++ [("groups", vNats (πss.map (·.length))),
+          ("used", .n (draws.length - rest.length)), ("log", vLog s)]
+    | 3 =>
+      let cl ← asLabels (← need r "clabels")
+      let coms ← asFess (p := p) (← need r "coms")
+      let qs ← getQueries (p := p) (← need r "qs")
+      let evals ← getEvals (p := p) (← need r "evals")
+      let pk ← asNats (← need r "pk")
+      let πs ← getProofs (p := p) r
+      let comms : List (LComm (Fp p)) := (cl.zip coms).map fun (l, T) => ⟨l, T⟩
+      pure <| exceptReply
+        (TraitDefault.batchCheck ltVec (fun (c : LComm (Fp p)) => c.label) (checkF ro ks hh) comms qs evals
+          (chunksBy pk πs) ([] : Log (Fp p))) fun (b, s) => [("b", vBool b), ("log", vLog s)]
+    | _ => .error "unknown-side"
   | _ => .error "unknown-op"
 
 end DrvHyrax
